@@ -630,8 +630,8 @@ func scanExpr(expr string) string {
 			r++
 		case ')':
 			l++
-		case '\'', '"':
-			// Skip unescaped strings.
+		case '\'', '"', '`':
+			// Skip unescaped strings and quoted identifiers.
 			if j := strings.IndexByte(expr[i+1:], expr[i]); j != -1 {
 				i += j + 1
 			}
